@@ -7,7 +7,7 @@ ASSUMPTIONS = ["oracle: is_empty_re compared with the verified model's decision;
 
 def sem_empty(rng, case, al):
     """terms whose emptiness is only semantic"""
-    k = rng.randrange(7)
+    k = rng.randrange(10)
     a, b = al.rand_range(rng)
     x = case.push("range %d %d" % (a, b))
     if k == 0:   # disjoint intersection under concatenation
@@ -31,8 +31,22 @@ def sem_empty(rng, case, al):
     if k == 5:   # length mismatch
         p = case.push("pow %d 2" % x); q = case.push("pow %d 3" % x)
         return case.push("inter %d %d" % (p, q))
-    s = case.push("plus %d" % x); e = case.push("eps")
-    return case.push("inter %d %d" % (s, e))
+    if k == 6:
+        s = case.push("plus %d" % x); e = case.push("eps")
+        return case.push("inter %d %d" % (s, e))
+    if k == 7:   # complement of a union that is universal only semantically: ~(~u + ~v), u and v disjoint
+        u = case.push("str " + word([al.letters[0]])); v = case.push("str " + word([al.letters[1], al.letters[0]]))
+        cu = case.push("comp %d" % u); cv = case.push("comp %d" % v)
+        un = case.push("union %d %d" % (cu, cv))
+        return case.push("comp %d" % un)
+    if k == 8:   # ~(Sigma* . (x + eps)) : the concatenation is universal
+        a = case.push("all"); o = case.push("opt %d" % x)
+        c = case.push("concat %d %d" % (a, o))
+        return case.push("comp %d" % c)
+    # ~((x + ~x') ...) with overlapping ranges: universal by coverage, not by a complement pair
+    y = case.push("range %d %d" % (max(0, a - 1), min(MAXC, b + 1)))
+    cy = case.push("comp %d" % x); un = case.push("union %d %d" % (y, cy))
+    return case.push("comp %d" % un)
 
 
 def one_case(rng, tier):
